@@ -1,21 +1,24 @@
 import Martian.Util
-import Martian.Model.H2Session
+import Martian.Model.H2Proxy
 /-! Driver for C10: validates an environment trace (+ schedule hints) against the session model and
 prints the model's prediction of the observations (`returned`, upstream closed, goroutines left).
 
 The driver adds only the sockets between environment and model: per direction a FIFO of results the
-next `ReadFrame` calls will get (bytes already written by the peer), and whether writes toward a side
-fail. `settle` runs the model's canonical scheduler (`pick`) to quiescence. -/
+next `ReadFrame` calls will get (bytes already written by the peer), the client's preface bytes
+waiting to be read, and whether the server has already reset the connection when the preface is
+written. `settle` runs the model's canonical scheduler (`pick`, and `retErr` in the early stages) to
+quiescence. -/
 namespace Martian.Drv.C10
 open Martian Martian.H2Session
 
 structure St where
   started : Bool := false
-  sys : Sys := {}
+  p : Proxy := {}
   qc : List Res := []      -- pending ReadFrame results for the c2s reader (bytes sent by the client)
   qs : List Res := []
-  failC : Bool := false    -- writes of the c2s writer (toward the server) fail
-  failS : Bool := false
+  pref : Option Bool := none   -- the client has sent its preface bytes (good / not) and they are unread
+  srvGone : Bool := false      -- the server reset the connection before the preface was written to it
+  prefaced : Bool := false     -- the client has already sent what it sends first
 deriving Repr
 
 def init : St := {}
@@ -27,9 +30,10 @@ def parseDir : String → Option Dir
 
 def parseRes : List String → Option Res
   | "own" :: n :: _ => n.toNat?.map fun k => .frame (.own k)
+  | "data" :: n :: _ => n.toNat?.map fun k => .frame (.data k)
   | "peer" :: n :: _ => n.toNat?.map fun k => .frame (.peer k)
-  | "direct" :: "1" :: _ => some (.frame (.direct true))
-  | "direct" :: "0" :: _ => some (.frame (.direct false))
+  | "settings" :: n :: _ => n.toNat?.map fun k => .frame (.settings k)
+  | "direct" :: _ => some (.frame .direct)
   | "bad" :: _ => some (.frame .bad)
   | "eof" :: _ => some .eof
   | "err" :: _ => some .err
@@ -42,100 +46,156 @@ def parseLabel : List String → Option Label
   | ["acquire", d] => (parseDir d).map .acquire
   | ["push", d] => (parseDir d).map .push
   | ["release", d] => (parseDir d).map .release
+  | ["mAcquire", d] => (parseDir d).map .mAcquire
+  | ["mDone", d] => (parseDir d).map .mDone
   | ["handshake", d] => (parseDir d).map .handshake
-  | ["wSend", d, "1"] => (parseDir d).map (.wSend · true)
-  | ["wSend", d, "0"] => (parseDir d).map (.wSend · false)
+  | ["wTake", d] => (parseDir d).map .wTake
+  | ["wLock", d] => (parseDir d).map .wLock
+  | ["wDone", d] => (parseDir d).map .wDone
   | ["watchClosing"] => some .watchClosing
   | ["watchDone"] => some .watchDone
   | ["ret"] => some .ret
   | ["rfClosed", d] => (parseDir d).map .rfClosed
   | _ => none
 
+def running (st : St) : Bool := st.p.stage == .running
+
+def sys (st : St) : Sys := st.p.sys
+
+def apply (st : St) (l : PLabel) : Option St := (pstep st.p l).map fun p' => { st with p := p' }
+
 /-- Hand the next pending result to a blocked `ReadFrame` of direction `d`, if any. -/
 def flush1 (st : St) (d : Dir) : Option St :=
+  if !running st then none else
   let q := match d with | .c2s => st.qc | .s2c => st.qs
   match q with
   | [] => none
   | r :: rest =>
-    match step st.sys (.deliver d r) with
-    | some s' => some (match d with
-        | .c2s => { st with sys := s', qc := rest }
-        | .s2c => { st with sys := s', qs := rest })
+    match apply st (.relay (.deliver d r)) with
+    | some st' => some (match d with
+        | .c2s => { st' with qc := rest }
+        | .s2c => { st' with qs := rest })
     | none => none
 
 def flush (st : St) : St :=
   let st := (flush1 st .c2s).getD st
   (flush1 st .s2c).getD st
 
-/-- The writer's connection write fails when the driver's socket says so. -/
-def adjust (st : St) : Label → Label
-  | .wSend .c2s true => if st.failC then .wSend .c2s false else .wSend .c2s true
-  | .wSend .s2c true => if st.failS then .wSend .s2c false else .wSend .s2c true
-  | l => l
+/-- One step of the early stages: the preface bytes are consumed, the preface is written, the error
+    return runs. -/
+def early1 (st : St) : Option St :=
+  match st.p.stage with
+  | .prefaceRead => match st.pref with
+    | some ok => (apply st (.prefaceIn ok)).map fun st' => { st' with pref := none }
+    | none => none
+  | .prefaceWrite => apply st (.prefaceOut (!st.srvGone))
+  | .failing _ => apply st .retErr
+  | _ => none
+
+/-- The early stages run as soon as their input is there (the harness waits for the preface to reach
+    the server before it goes on). -/
+def earlyAll : Nat → St → St
+  | 0, st => st
+  | k + 1, st => match early1 st with
+    | some st' => earlyAll k st'
+    | none => st
 
 def settle : Nat → St → St
   | 0, st => st
   | fuel + 1, st =>
+    match early1 st with
+    | some st' => settle fuel st'
+    | none =>
     match flush1 st .c2s with
     | some st' => settle fuel st'
     | none => match flush1 st .s2c with
       | some st' => settle fuel st'
-      | none => match pick st.sys with
+      | none =>
+        if !running st then st else
+        match pick st.p.sys with
         | none => st
-        | some l => match step st.sys (adjust st l) with
-          | some s' => settle fuel { st with sys := s' }
+        | some l => match apply st (.relay l) with
+          | some st' => settle fuel st'
           | none => st
 
 def fuel : Nat := 4000000
 
 def count (p : Proc) (l : List Proc) : Nat := (l.filter (· == p)).length
 
-def obs (s : Sys) : String :=
-  let a := alive s
+def obs (p : Proxy) : String :=
+  let a := palive p
   let names := List.replicate (count .main a) "main" ++ List.replicate (count .reader a) "reader" ++
     List.replicate (count .readframe a) "readframe" ++ List.replicate (count .watcher a) "watcher" ++
     List.replicate (count .writer a) "writer"
   let left := if names.isEmpty then "-" else ",".intercalate names
-  s!"returned={if s.returned then 1 else 0} sc={if s.scClosed then "closed" else "open"} left={left}"
+  let sc := if !p.dialed then "none" else if p.scClosed then "closed" else "open"
+  s!"returned={if p.returned then 1 else 0} sc={sc} left={left}"
 
 def enqueue (st : St) (d : Dir) (r : Res) (n : Nat) : St :=
   match d with
   | .c2s => { st with qc := st.qc ++ List.replicate n r }
   | .s2c => { st with qs := st.qs ++ List.replicate n r }
 
+/-- Environment label of the relay machine: applied when the relays run, dropped otherwise (the
+    harness's bytes reach nobody). -/
+def envRelay (st : St) (l : Label) : St := (apply st (.relay l)).getD st
+
 def stepN (st : St) (n : Nat) (toks : List String) : St × String :=
   match toks with
-  | ["start"] => if st.started then (st, "bad-op") else ({ st with started := true }, "ok")
+  | ["start"] =>
+    if st.started then (st, "bad-op")
+    else ({ st with started := true, prefaced := true, p := { stage := .running } }, "ok")
+  | "begin" :: mode :: _ =>
+    if st.started then (st, "bad-op") else
+    match mode with
+    | "ok" => ({ st with started := true, p := (pstep pinit (.dial true)).getD pinit }, "ok")
+    | "refuse" | "tlsfail" => ({ st with started := true, p := (pstep pinit (.dial false)).getD pinit }, "ok")
+    | _ => (st, "bad-op")
   | _ =>
   if !st.started then (st, "bad-op") else
   match toks with
+  | "env" :: "preface" :: kind :: _ =>
+    match kind with
+    | "good" | "split" =>
+      if st.prefaced then (st, "bad-op") else (earlyAll 4 { st with pref := some true, prefaced := true }, "ok")
+    | "eof" | "short" | "wrong" =>
+      if st.prefaced then (st, "bad-op") else (earlyAll 4 { st with pref := some false, prefaced := true }, "ok")
+    | _ => (st, "bad-op")
   | "env" :: "deliver" :: d :: rest =>
     match parseDir d, parseRes rest with
-    | some d, some r => if rest.contains ":" then (enqueue st d r n, "ok") else (st, "bad-op")
+    | some d, some r =>
+      if !rest.contains ":" then (st, "bad-op")
+      else if running st then (enqueue st d r n, "ok")
+      else
+        -- before the relays exist only the server can act: it goes away (the preface write fails)
+        if d == .s2c && (r == .err || r == .eof) then ({ (enqueue st d r n) with srvGone := st.srvGone || r == .err }, "ok")
+        else (st, "bad-op")
     | _, _ => (st, "bad-op")
-  | ["env", "closing"] => ({ st with sys := (step st.sys .closing).getD st.sys }, "ok")
-  | ["env", "stall", "s2c"] => ({ st with sys := (step st.sys (.stall .s2c)).getD st.sys }, "ok")
-  | ["env", "unstall", "s2c"] => ({ st with sys := (step st.sys (.unstall .s2c)).getD st.sys }, "ok")
-  | ["env", "failwrites", "s2c"] => ({ st with failS := true }, "ok")
-  | ["env", "failwrites", "c2s"] => ({ st with failC := true }, "ok")
+  | ["env", "closing"] => ((apply st .closing).getD st, "ok")
+  | ["env", "stall", "s2c"] => (envRelay st (.stall .s2c), "ok")
+  | ["env", "unstall", "s2c"] => (envRelay st (.unstall .s2c), "ok")
+  | ["env", "failwrites", "s2c"] => (envRelay st (.failWrites .s2c), "ok")
+  | ["env", "failwrites", "c2s"] => (envRelay st (.failWrites .c2s), "ok")
   | "hint" :: rest =>
     match parseLabel rest with
     | some l =>
       let st := flush st
       if l.isProc then
-        match step st.sys l with
-        | some s' => ({ st with sys := s' }, "ok")
+        match apply st (.relay l) with
+        | some st' => (st', "ok")
         | none => (st, "rejected")
       else (st, "bad-op")
     | none => (st, "bad-op")
+  | ["settings"] => if running st then (settle fuel st, "ok") else (st, "bad-op")
   | "settle" :: _ => (settle fuel st, "ok")
-  | ["probe"] => let st := settle fuel st; (st, obs st.sys)
+  | ["probe"] => let st := settle fuel st; (st, obs st.p)
+  | ["finish", "missed-race"] => (st, "out-of-model")
   | ["finish"] =>
     let st := settle fuel st
-    let st := match step st.sys .callerClose with
-      | some s' => settle fuel { st with sys := s' }
+    let st := match apply st .callerClose with
+      | some st' => settle fuel st'
       | none => st
-    (st, obs st.sys)
+    (st, obs st.p)
   | _ => (st, "bad-op")
 
 def step (st : St) (toks : List String) : St × String :=
